@@ -330,8 +330,15 @@ impl<T> Default for Queue<T> {
 impl<T> Drop for Queue<T> {
     fn drop(&mut self) {
         while self.pop().is_some() {}
-        // release the stub
-        let _: Box<Node<T>> = unsafe { Box::from_raw(*self.tail.get()) };
+        // release the stub. it is the node of the entry that was popped last,
+        // whose handle may still be alive: drop the list's reference only
+        unsafe {
+            let stub = *self.tail.get();
+            (*stub).refs.fetch_and(REF_COUNT_MASK, Ordering::AcqRel);
+            if (*stub).refs.fetch_sub(1, Ordering::AcqRel) == 1 {
+                let _: Box<Node<T>> = Box::from_raw(stub);
+            }
+        }
     }
 }
 
